@@ -66,6 +66,59 @@ theorem await_gets_first (pre mid post : List Op) (n : Name) (w : Nat)
     simp only [joinObs, hw3, hr3]
     cases firstComplete n post <;> simp
 
+/-- The runner's consumer (`testResults.fetchTrace`, modelled by `collects`: the waiter's Await
+begins after `pre ++ [init n] ++ mid`, `report()` joins it after `post`).  As long as the slot
+is neither re-initialised nor cleared, the waiter hands on precisely the first trace completed
+for `n` in `mid ++ post` — and is still blocked exactly when there is none — which is also what
+the history-based expectation `collectSpec` (the check's predicate) says. -/
+theorem runner_collects_first (pre mid post : List Op) (n : Name) (w : Nat)
+    (hidle : (exec init (pre ++ [.init n] ++ mid)).1.waiters w = none)
+    (hslot : ∀ o ∈ mid ++ post, touches n o = false)
+    (hw : ∀ o ∈ post, usesWaiter w o = false) :
+    collects w n (pre ++ [.init n] ++ mid) post
+        = (firstComplete n (mid ++ post), (firstComplete n (mid ++ post)).isNone) ∧
+    collectSpec n (pre ++ [.init n] ++ mid) post
+        = (firstComplete n (mid ++ post), (firstComplete n (mid ++ post)).isNone) := by
+  have h := await_gets_first pre mid post n w hidle hslot hw
+  simp only at h
+  obtain ⟨h1, h2⟩ := h
+  constructor
+  · unfold collects
+    simp only []
+    rw [h1, firstComplete_append]
+    cases hm : firstComplete n mid with
+    | some t => simp
+    | none =>
+      have h2' := h2 hm
+      simp only []
+      rw [h2']
+      cases hp : firstComplete n post <;> simp
+  · unfold collectSpec
+    rw [epochMid_init_mid n pre mid (fun o ho => hslot o (by simp [ho])),
+      sameEpoch_noTouch n post (fun o ho => hslot o (by simp [ho]))]
+    cases hf : firstComplete n (mid ++ post) <;> simp [hf]
+
+/-- … in particular it does not matter when the wait begins: a waiter started right after the
+outcome was recorded (before the operations `m2`) and one started only after them collect the
+same trace — a completion is never lost because it came "too early" or "too late". -/
+theorem runner_collects_any_start (pre m1 m2 post : List Op) (n : Name) (w : Nat)
+    (hidle1 : (exec init (pre ++ [.init n] ++ m1)).1.waiters w = none)
+    (hidle2 : (exec init (pre ++ [.init n] ++ (m1 ++ m2))).1.waiters w = none)
+    (hslot : ∀ o ∈ m1 ++ m2 ++ post, touches n o = false)
+    (hw : ∀ o ∈ m2 ++ post, usesWaiter w o = false) :
+    collects w n (pre ++ [.init n] ++ m1) (m2 ++ post) = collects w n (pre ++ [.init n] ++ (m1 ++ m2)) post := by
+  rw [(runner_collects_first pre m1 (m2 ++ post) n w hidle1 (by simpa [List.append_assoc] using hslot) hw).1,
+    (runner_collects_first pre (m1 ++ m2) post n w hidle2 (by simpa [List.append_assoc] using hslot)
+      (fun o ho => hw o (by simp [ho]))).1]
+  simp [List.append_assoc]
+
+/-- non-vacuity: completed before the outcome, between outcome and report, never -/
+example : collects 1 "a" [.init "a", .complete "a" 7, .complete "a" 8] [] = (some 7, false) ∧
+    collects 1 "a" [.init "a"] [.complete "b" 5, .complete "a" 7, .complete "a" 8] = (some 7, false) ∧
+    collects 1 "a" [.init "a"] [.complete "b" 5] = (none, true) ∧
+    collectSpec "a" [.init "a"] [.clear "a", .complete "a" 7] = (none, true) ∧
+    collectSpec "a" [.init "a", .clear "a"] [.complete "a" 7] = (none, false) := by decide
+
 /-- non-vacuity: late completion; the second completion and the other waiter change nothing -/
 example : (exec init [.init "b", .init "a", .await 1 "a", .complete "b" 5, .await 2 "b",
       .complete "a" 7, .complete "a" 8, .join 1]).2 =
